@@ -529,6 +529,12 @@ func c04(repo string, out *fg.Out) error {
 		return err
 	}
 	importRejectsEmpty := strings.Contains(vhBody, `if name == ""`)
+	// `_`-prefixed header names are rejected too (after the empty check, so name[0] is safe)
+	iu, ie := strings.Index(vhBody, `if name[0] == '_' { return -1, &importError{`), strings.Index(vhBody, `if name == ""`)
+	importRejectsUnderscore := iu >= 0 && ie >= 0 && ie < iu
+	if strings.Contains(vhBody, "name[0]") && !importRejectsUnderscore {
+		return fmt.Errorf("validateImportHeader: name[0] used in an unrecognised shape")
+	}
 	mpf, _ := fg.ParseFile(repo, "internal/api/msgpack.go")
 	_, emBody, err := fn(mpf, "MsgPackHandler", "extractMeasurements")
 	if err != nil {
@@ -578,6 +584,7 @@ func c04(repo string, out *fg.Out) error {
 	fmt.Fprintf(w, "/-- in every write/import handler all name validation is complete before the first record is handed to the buffer (no loop validates and writes) -/\ndef namesValidatedBeforeAnyWrite : Bool := %s\n", b(validationFirst))
 	fmt.Fprintf(w, "def validationFirstAt : List String := [%s]\n", leanStrs(vfSites))
 	fmt.Fprintf(w, "/-- importCSV / importParquet store every column under exactly the header name validateImportHeader checked (no assignment to header / header[i] / name after the call) -/\ndef importNamesStoredAsValidated : Bool := %s\n", b(namesAsValidated))
+	fmt.Fprintf(w, "/-- validateImportHeader rejects header names that start with '_' (they would be left out of the Parquet schema) -/\ndef importRejectsUnderscoreName : Bool := %s\n", b(importRejectsUnderscore))
 	fmt.Fprintf(w, "def importRejectsEmptyName : Bool := %s\n", b(importRejectsEmpty))
 	fmt.Fprintf(w, "def extractMeasurementsSkipsEmpty : Bool := %s\n", b(emSkipsEmpty))
 	fmt.Fprintf(w, "/-- NewServer installs fiber's recover middleware -/\ndef handlerPanicsRecovered : Bool := %s\n", b(handlerRecover))
@@ -596,6 +603,7 @@ func c04(repo string, out *fg.Out) error {
 	out.JSON["env_header_cap"] = envCap
 	out.JSON["handler_panics_recovered"] = handlerRecover
 	out.JSON["write_atomic"] = writeAtomic
+	out.JSON["import_rejects_underscore_name"] = importRejectsUnderscore
 	out.JSON["import_names_stored_as_validated"] = namesAsValidated
 	out.JSON["names_validated_before_any_write"] = validationFirst
 	return nil
